@@ -374,7 +374,7 @@ class ArgumentParser:
         )
 
         # Suppress warnings for common arguments we don't care about.
-        parser.add_argument("-O", dest=None)
+        parser.add_argument("-O", dest=None, nargs="?")
         parser.add_argument("-o", dest=None)
         parser.add_argument("file", nargs="*")
 
